@@ -107,6 +107,8 @@ pub struct Ctx {
     pub bytes_written: u64,
     pub foreign_writes: u32,
     pub sched_points: u64,
+    /// scheduling points that came from log statements of the code under test
+    pub log_points: u64,
 
     fds: BTreeMap<c_int, FdInfo>,
     fd_ord: u32,
@@ -144,6 +146,7 @@ impl Ctx {
             bytes_written: 0,
             foreign_writes: 0,
             sched_points: 0,
+            log_points: 0,
             fds: BTreeMap::new(),
             fd_ord: 0,
             dirs: BTreeMap::new(),
@@ -296,6 +299,24 @@ fn enter() -> Option<Guard> {
         }
     }
     Some(Guard { ctx: p })
+}
+
+/// A scheduling point that is not a libc call (the executor's `log` sink: every log statement
+/// of the code under test).  Does not count as an intercepted call.
+pub fn sched_point() {
+    let p = CURRENT.load(Ordering::SeqCst);
+    if p.is_null() || BYPASS.with(|b| b.get()) {
+        return;
+    }
+    let hook = SCHED_HOOK.load(Ordering::SeqCst);
+    if !hook.is_null() {
+        let f: fn() = unsafe { std::mem::transmute(hook) };
+        f();
+    }
+    let p = CURRENT.load(Ordering::SeqCst);
+    if !p.is_null() {
+        unsafe { (*p).log_points += 1 };
+    }
 }
 
 /// Where the crash record goes (fd); set by the executor.
